@@ -11,6 +11,30 @@ def chunks(items, n):
     return [items[i:i + k] for i in range(0, len(items), k)]
 
 
+def plain(x):
+    """Results cross a process boundary: anything that is not plain data (a Future or lock leaked into response data by a broken
+    implementation, an exception object in a witness) is replaced by its repr so that it is REPORTED instead of breaking the harness."""
+    if x is None or isinstance(x, (str, int, float, bool)):
+        return x
+    if isinstance(x, dict):
+        return {(k if isinstance(k, (str, int, float, bool, tuple)) or k is None else repr(k)): plain(v) for k, v in x.items()}
+    if isinstance(x, list):
+        return [plain(v) for v in x]
+    if isinstance(x, tuple):
+        return tuple(plain(v) for v in x)
+    if isinstance(x, (set, frozenset)):
+        return type(x)(plain(v) for v in x)
+    return "<%s>" % repr(x)[:200]
+
+
+class _Plain:
+    def __init__(self, fn):
+        self.fn = fn
+
+    def __call__(self, part):
+        return plain(self.fn(part))
+
+
 def pmap(fn, items, nproc=None, chunk=None):
     """fn(list_of_items) -> result; returns list of results (one per chunk)."""
     nproc = nproc or NPROC
@@ -22,4 +46,4 @@ def pmap(fn, items, nproc=None, chunk=None):
         return [fn(p) for p in parts]
     ctx = mp.get_context("fork")
     with ctx.Pool(min(nproc, len(parts))) as pool:
-        return pool.map(fn, parts, chunksize=1)
+        return pool.map(_Plain(fn), parts, chunksize=1)
